@@ -8,13 +8,16 @@ import os, re, sys
 sys.path.insert(0, os.path.join(os.path.dirname(os.path.abspath(__file__)), "..", "tools"))
 from vlib import *
 
-OVERLAY = {"p2p/net/upgrader/zz_c04_verif_test.go": "harness/overlay/c04/c04_verif_test.go"}
+OVERLAY = {"p2p/net/upgrader/zz_c04_verif_test.go": "harness/overlay/c04/c04_verif_test.go",
+           "zz_c04_streams_verif_test.go": "harness/overlay/c04/c04_streams_verif_test.go"}
+SUITES = [("p2p/net/upgrader", "TestVerifC04$"), (".", "TestVerifC04Streams$")]
 
 SPECS = [
     "upgrade_inner=p2p/net/upgrader/upgrader.go:upgrader.upgrade",
     "upgrade_outer=p2p/net/upgrader/upgrader.go:upgrader.Upgrade",
     "listener_go=p2p/net/upgrader/listener.go:listener.handleIncoming#go0",
     "gated_accept=p2p/net/upgrader/listener.go:gatedMaListener.Accept",
+    "listener_accept=p2p/net/upgrader/listener.go:listener.Accept",
     "tcp_dial=p2p/transport/tcp/tcp.go:TcpTransport.DialWithUpdates",
     "tcp_dial_scope=p2p/transport/tcp/tcp.go:TcpTransport.dialWithScope",
     "conn_newstream=p2p/net/swarm/swarm_conn.go:Conn.NewStream",
@@ -55,20 +58,42 @@ def unbalanced_report(ctx):
 
 
 def harness(ctx, casefile, tier, seed):
-    return ctx.go_test("p2p/net/upgrader", "TestVerifC04$", OVERLAY,
-                       env={"VERIF_OUT": casefile, "VERIF_TIER": tier, "VERIF_SEED": str(seed)}, timeout=2400)
+    rc_all, out_all, parts, cov = 0, "", [], {}
+    for pkg, run in SUITES:
+        part = casefile + "." + run.strip("$")
+        for p in (part, part + ".cov"):
+            if os.path.exists(p):
+                os.remove(p)
+        rc, out = ctx.go_test(pkg, run, OVERLAY, env={"VERIF_OUT": part, "VERIF_TIER": tier, "VERIF_SEED": str(seed)}, timeout=2400)
+        if rc != 0 or not os.path.exists(part):
+            rc_all = rc or 1
+            out_all += "\n== %s %s rc=%d\n%s" % (pkg, run, rc, out[-1500:])
+        if os.path.exists(part):
+            parts.append(part)
+            cov.update(read_cov(part))
+    with open(casefile, "w") as f:
+        for p in parts:
+            f.write(open(p).read())
+    with open(casefile + ".cov", "w") as f:
+        for k in sorted(cov):
+            f.write("%s %d\n" % (k, cov[k]))
+    return rc_all, out_all
 
 
 def warm(ctx):
-    rc, out = ctx.go_test("p2p/net/upgrader", "TestVerifNothing$", OVERLAY, timeout=1500)
-    if rc != 0:
-        ctx.obligations.append(("harness:compile", False, out[-1500:]))
+    for pkg, run in SUITES:
+        rc, out = ctx.go_test(pkg, "TestVerifNothing$", OVERLAY, timeout=1500)
+        if rc != 0:
+            ctx.obligations.append(("harness:compile:" + pkg, False, out[-1500:]))
 
 
-KIND = {1: "outbound dial (TcpTransport.Dial > Upgrade)", 2: "inbound accept (upgrader listener)"}
-FAULT = {0: "none", 1: "read error", 2: "write error", 3: "EOF", 4: "socket dies", 5: "stall until deadline"}
+KIND = {1: "outbound dial (TcpTransport.Dial > Upgrade)", 2: "inbound accept (upgrader listener)",
+        3: "stream open (BasicHost.NewStream; cfg 0 = opener, 1 = remote host)", 4: "host Close (usage after close, listeners/conns gone)"}
+FAULT = {0: "none", 1: "read error", 2: "write error", 3: "EOF", 4: "socket dies", 5: "stall until deadline",
+         10: "none (protocol served)", 11: "no handler for the protocol", 12: "local rcmgr refuses the protocol scope", 13: "remote rcmgr refuses the protocol scope",
+         14: "remote handler resets", 15: "context cancelled (served protocol)", 16: "context cancelled (unserved protocol)"}
 SPECIAL = {0: "", 1: "dial with empty peer ID", 2: "server gater rejects at InterceptSecured", 3: "client gater rejects at InterceptSecured",
-           4: "server gater rejects at InterceptAccept", 5: "private network forced, no PSK"}
+           4: "server gater rejects at InterceptAccept", 5: "private network forced, no PSK", 6: "nobody accepts for longer than the accept timeout", 7: "the remote closes while the upgraded conn waits in the accept queue"}
 
 
 def describe(t):
